@@ -143,34 +143,54 @@ func c18Observers(p *core.Program, r *core.Report) {
 	// the ApplyConfig call sits directly in a loop body (not under an if / switch inside the loop)
 	found, conditional := false, false
 	var stack []ast.Node
-	ast.Inspect(run.Decl.Body, func(n ast.Node) bool {
-		if n == nil {
-			stack = stack[:len(stack)-1]
-			return true
-		}
-		stack = append(stack, n)
-		if call, ok := n.(*ast.CallExpr); ok {
-			if sel, ok := call.Fun.(*ast.SelectorExpr); ok && sel.Sel.Name == "ApplyConfig" {
-				found = true
-			outward:
-				for i := len(stack) - 2; i >= 0; i-- {
-					switch stack[i].(type) {
-					case *ast.RangeStmt, *ast.ForStmt:
-						break outward
-					case *ast.IfStmt:
-						// a nil test of the observer itself skips nobody who can be notified
-						c := stripSpaces(types.ExprString(stack[i].(*ast.IfStmt).Cond))
-						if !(strings.HasSuffix(c, "!=nil") && !strings.ContainsAny(c, "&|")) {
-							conditional = true
-						}
-					case *ast.SwitchStmt, *ast.TypeSwitchStmt:
-						conditional = true
+	// Run and the functions of the package it is split into
+	bodies := []*core.FuncInfo{run}
+	seenFn := map[*core.FuncInfo]bool{run: true}
+	for i := 0; i < len(bodies) && i < 8; i++ {
+		bf := bodies[i]
+		ast.Inspect(bf.Decl.Body, func(n ast.Node) bool {
+			if call, ok := n.(*ast.CallExpr); ok {
+				if fn := calleeFunc(bf.Pkg.TypesInfo, call); fn != nil {
+					if cf := p.FuncOf(fn); cf != nil && cf.Decl.Body != nil && cf.Pkg == run.Pkg && !seenFn[cf] {
+						seenFn[cf] = true
+						bodies = append(bodies, cf)
 					}
 				}
 			}
-		}
-		return true
-	})
+			return true
+		})
+	}
+	for _, bf := range bodies {
+		stack = nil
+		ast.Inspect(bf.Decl.Body, func(n ast.Node) bool {
+			if n == nil {
+				stack = stack[:len(stack)-1]
+				return true
+			}
+			stack = append(stack, n)
+			if call, ok := n.(*ast.CallExpr); ok {
+				if sel, ok := call.Fun.(*ast.SelectorExpr); ok && sel.Sel.Name == "ApplyConfig" {
+					found = true
+				outward:
+					for i := len(stack) - 2; i >= 0; i-- {
+						switch stack[i].(type) {
+						case *ast.RangeStmt, *ast.ForStmt:
+							break outward
+						case *ast.IfStmt:
+							// a nil test of the observer itself skips nobody who can be notified
+							c := stripSpaces(types.ExprString(stack[i].(*ast.IfStmt).Cond))
+							if !(strings.HasSuffix(c, "!=nil") && !strings.ContainsAny(c, "&|")) {
+								conditional = true
+							}
+						case *ast.SwitchStmt, *ast.TypeSwitchStmt:
+							conditional = true
+						}
+					}
+				}
+			}
+			return true
+		})
+	}
 	switch {
 	case !found:
 		r.Viol("C18.observers", "config.ConfigObserver.Run", p.Pos(run.Decl.Pos()), "Run does not call ApplyConfig on the registered observers")
